@@ -119,6 +119,7 @@ set_option maxRecDepth 20000 in
 theorem gen_residual_numerics :
     Gen.C09.rotateTranslateAssigns = ["theta = np.linalg.norm(rot_vecs, axis=1)[:, np.newaxis]", "v = rot_vecs / theta",
       "v = np.nan_to_num(v)", "dot = np.sum(points * v, axis=1)[:, np.newaxis]", "cos_theta = np.cos(theta)", "sin_theta = np.sin(theta)"] ∧
+    (∀ kw ∈ Gen.C09.nanToNumKeywords, kw ∈ ["nan=0.0", "posinf=0.0", "neginf=0.0"]) ∧
     Gen.C09.rotateTranslateReturns = ["return cos_theta * points + sin_theta * np.cross(v, points) + dot * (1 - cos_theta) * v + translations"] ∧
     Gen.C09.calcAnglePairsAssigns = ["sensor_points = cls._rotate_translate(sens_pos_p_a, cf_p_a[:, :defs.len_rot_vec], cf_p_a[:, defs.len_rot_vec:])",
       "points_bs_ref = cls._rotate_translate(sensor_points - bs_p_a[:, defs.len_rot_vec:defs.n_params_per_bs], -bs_p_a[:, :defs.len_rot_vec], np.zeros_like(bs_p_a[:, defs.len_rot_vec:defs.n_params_per_bs]))",
